@@ -170,6 +170,42 @@ pub fn edited_after_decode(ex: &Ex, fams: &'static str, l: &mut Local) {
     }
 }
 
+
+/// Built protected headers that have no encoding at all (a repeated extra label, directly or inside
+/// a counter-signature).  A structure function may refuse them (the crate panics); if it returns
+/// bytes, those must not coincide with the bytes of any other input (injectivity).
+fn unencodable_headers() -> Vec<coset::ProtectedHeader> {
+    let dup = RHeader { rest: vec![(l_int(9), gen::u(1)), (l_int(9), gen::u(2))], ..Default::default() };
+    let inner = RSignature { protected: RProtected { original: None, header: dup.clone() }, unprotected: RHeader::default(), signature: vec![] };
+    let nested = RHeader { counter_signatures: vec![inner], ..Default::default() };
+    vec![
+        subject::c_protected(&RProtected { original: None, header: dup }).unwrap(),
+        subject::c_protected(&RProtected { original: None, header: nested }).unwrap(),
+    ]
+}
+
+fn check_unencodable(pid: &str, space: &str, table: &std::sync::Mutex<std::collections::HashMap<Vec<u8>, String>>, f: &dyn Fn(coset::ProtectedHeader) -> Vec<(String, Vec<u8>)>, l: &mut Local) {
+    for (hi, h) in unencodable_headers().into_iter().enumerate() {
+        l.state(1);
+        l.count("unencodable_header_cases");
+        if let Ok(outs) = catch(|| f(h.clone())) {
+            let t = table.lock().unwrap();
+            for (what, out) in outs {
+                if let Some(prev) = t.get(&out) {
+                    l.viol(crate::mc::Viol {
+                        key: format!("{}:unencodable-header-shares-bytes-with-another-input", pid),
+                        space: space.to_string(),
+                        case: format!("{} with unencodable protected header #{}", what, hi),
+                        direct: None,
+                        expected: "refused, or bytes that no other input produces".into(),
+                        observed: format!("same bytes as {}", prev),
+                    });
+                }
+            }
+        }
+    }
+}
+
 // ---------------------------------------------------------------------------------------------
 // C03
 
@@ -277,6 +313,19 @@ pub fn explore_c03(ex: &Ex) {
     });
     ex.bound("c03", "injectivity_table_size", json!(injective.lock().unwrap().len()));
     let mut l = Local::default();
+    check_unencodable(ex.pid, "c03", &injective, &|h| {
+        let good = coset::ProtectedHeader::default();
+        let mut v = Vec::new();
+        for (ctx, text) in [(coset::SignatureContext::CoseSignature, "Signature"), (coset::SignatureContext::CoseSign1, "Signature1"), (coset::SignatureContext::CounterSignature, "CounterSignature")] {
+            if let Ok(o) = catch(|| coset::sig_structure_data(ctx, h.clone(), None, b"", b"")) {
+                v.push((format!("sig_structure_data[{}] body", text), o));
+            }
+            if let Ok(o) = catch(|| coset::sig_structure_data(ctx, good.clone(), Some(h.clone()), b"", b"")) {
+                v.push((format!("sig_structure_data[{}] signer", text), o));
+            }
+        }
+        v
+    }, &mut l);
     edited_after_decode(ex, "S", &mut l);
     ex.rep.merge(l);
 }
@@ -492,6 +541,15 @@ pub fn explore_c04(ex: &Ex) {
     });
     ex.bound("c04", "injectivity_table_size", json!(table.lock().unwrap().len()));
     let mut l = Local::default();
+    check_unencodable(ex.pid, "c04", &table, &|h| {
+        let mut v = Vec::new();
+        for (ctx, text) in [(coset::MacContext::CoseMac, "MAC"), (coset::MacContext::CoseMac0, "MAC0")] {
+            if let Ok(o) = catch(|| coset::mac_structure_data(ctx, h.clone(), b"", b"")) {
+                v.push((format!("mac_structure_data[{}]", text), o));
+            }
+        }
+        v
+    }, &mut l);
     edited_after_decode(ex, "M", &mut l);
     ex.rep.merge(l);
 }
@@ -657,6 +715,15 @@ pub fn explore_c05(ex: &Ex) {
     });
     ex.bound("c05", "injectivity_table_size", json!(table.lock().unwrap().len()));
     let mut l = Local::default();
+    check_unencodable(ex.pid, "c05", &table, &|h| {
+        let mut v = Vec::new();
+        for (ctx, text) in [(EncryptionContext::CoseEncrypt, "Encrypt"), (EncryptionContext::CoseEncrypt0, "Encrypt0"), (EncryptionContext::EncRecipient, "Enc_Recipient"), (EncryptionContext::MacRecipient, "Mac_Recipient"), (EncryptionContext::RecRecipient, "Rec_Recipient")] {
+            if let Ok(o) = catch(|| coset::enc_structure_data(ctx, h.clone(), b"")) {
+                v.push((format!("enc_structure_data[{}]", text), o));
+            }
+        }
+        v
+    }, &mut l);
     edited_after_decode(ex, "E", &mut l);
     ex.rep.merge(l);
 }
